@@ -276,6 +276,79 @@ fn main() {
             }
             cr
         }));
+        // objects of several thousand blocks (the receiver pre-allocates 2048 block slots and creates the others
+        // lazily): both ends must still agree on N = ceil(T/B)
+        let big_ns: Vec<u64> = ctx.tier.pick(vec![2047u64, 2048, 2049, 2500, 4097], vec![2047, 2048, 2049, 2050, 2500, 4095, 4096, 4097, 6000, 10000]);
+        let n_big = big_ns.len() * 2 * 2; // No-Code and Raptor: flute limits the Reed-Solomon schemes to 255 blocks, RaptorQ has Z <= 255
+        gens.push(Gen::new("many_blocks", n_big, move |ctx, i| {
+            let mut rng = Rng::keyed(ctx.seed, "C07big", 0, i as u64);
+            let nblocks = big_ns[i % big_ns.len()];
+            let fec = [Fec::NoCode, Fec::Raptor][(i / big_ns.len()) % 2];
+            let uniform = (i / big_ns.len() / 2) % 2 == 0;
+            // uniform: B = 1 (N blocks of one symbol); otherwise B = 5 with T = 5N - 2 (large and small blocks of 5 / 4)
+            let (b, t) = if uniform { (1u32, nblocks) } else { (5u32, 5 * nblocks - 2) };
+            let e = *rng.pick(&[4u16, 8]);
+            let mut oti = OtiSpec::new(fec, e, b, if fec == Fec::NoCode { 0 } else { 1 });
+            oti.al = 4;
+            oti.inband_fti = rng.chance(1, 2);
+            let l = if fec == Fec::Raptor { t * e as u64 } else { (t - 1) * e as u64 + rng.range(1, e as u64) };
+            let data = rng.bytes(l as usize);
+            let spec = SenderSpec::new(OtiSpec::new(Fec::NoCode, 1024, 64, 0));
+            let mut obj = ObjSpec::new(data.clone(), "file:///c07-big.bin");
+            obj.oti = Some(oti.clone());
+            let mut cr = CaseResult::default();
+            let wit = json!({"oti": oti.json(), "L": l, "N": nblocks});
+            let p = ref_partition(b as u128, l as u128, e as u128);
+            if p.n != nblocks as u128 {
+                cr.inconclusive = Some(format!("generator: partition has {} blocks, wanted {}", p.n, nblocks));
+                return cr;
+            }
+            let r = util::guarded(|| {
+                let em = emit(&spec, &[obj.clone()], &EmitOpts { max_packets: 200_000, ..Default::default() })?;
+                let rx = receive_stream(&em, &RxOpts::default());
+                Ok::<_, String>((em, rx))
+            });
+            let (em, rx) = match r {
+                Ok(Ok(v)) => v,
+                Ok(Err(e)) => {
+                    cr.inconclusive = Some(format!("emit failed: {}", e));
+                    return cr;
+                }
+                Err(pn) => {
+                    cr.violations.push(Violation::new(if pn.is_step_budget() { "hang" } else { "panic" }, format!("{} @ {}", pn.msg, pn.short_loc())).with("site", if pn.is_step_budget() { pn.step_site() } else { pn.file() }).with("fec", fec.name()).witness(wit));
+                    return cr;
+                }
+            };
+            let toi = match em.tois[0] {
+                Some(t) => t,
+                None => {
+                    cr.inconclusive = Some(format!("object refused: {:?}", em.add_err[0]));
+                    return cr;
+                }
+            };
+            let mut per_block: std::collections::BTreeMap<u32, std::collections::BTreeSet<u32>> = Default::default();
+            for pk in em.stream.iter().filter(|p| p.toi() == toi) {
+                if (pk.dec.sbn as u128) < p.n && (pk.dec.esi as u128) < p.k(pk.dec.sbn as u128) {
+                    per_block.entry(pk.dec.sbn).or_default().insert(pk.dec.esi);
+                }
+            }
+            let bad = (0..p.n as u32).find(|sbn| per_block.get(sbn).map(|s| s.len()).unwrap_or(0) as u128 != p.k(*sbn as u128));
+            if per_block.len() as u128 != p.n || bad.is_some() {
+                cr.violations.push(Violation::new("wire_structure", format!("{} blocks with source symbols on the wire, partition says {} (first wrong block {:?})", per_block.len(), p.n, bad)).with("fec", fec.name()).with("many_blocks", true).witness(wit.clone()));
+            }
+            let c = rx.log.completes(toi);
+            if c.len() != 1 || c[0].data != data {
+                cr.violations.push(Violation::new("receiver_disagrees", format!("object of {} blocks: receiver did not rebuild it (complete writers: {}, writer traces {:?})", p.n, c.len(), rx.log.for_toi(toi).iter().map(|w| rx.log.abstract_trace_of(w.wid)).collect::<Vec<_>>()))
+                    .with("fec", fec.name()).with("many_blocks", true).witness(wit.clone()));
+            }
+            cr.count("object_packets", em.stream.iter().filter(|p| p.toi() == toi).count() as u64);
+            cr.shape = Some(util::fnv(&format!("big|{}|{}|{}", fec.name(), nblocks, uniform)));
+            cr.states = vec![util::fnv(&format!("big{}", nblocks > 2048))];
+            if i % 7 == 0 {
+                cr.sample = Some(json!({"oti": oti.json(), "L": l, "blocks": nblocks, "delivered": c.len() == 1}));
+            }
+            cr
+        }));
         // end to end: structure on the wire == reference partition, receiver delivers
         let e2e = ctx.tier.pick(600usize, 150_000);
         gens.push(Gen::new("end_to_end", e2e, move |ctx, i| {
